@@ -279,6 +279,7 @@ def tla_unquote(s):
 
 
 SCRIPT_RE = re.compile(r'^<<\s*"SCRIPT",\s*"(.*?)"\s*>>$', re.M | re.S)
+ALSO_RE = re.compile(r'^<<\s*"ALSO",\s*(-?\d+),\s*(\d+),\s*"([^"]*)"\s*>>$', re.M)
 VERDICT_RE = re.compile(r'^<<\s*"VERDICT",\s*(-?\d+),\s*(\d+),\s*"([^"]*)",\s*"(.*?)"\s*>>$', re.M | re.S)
 
 
@@ -492,6 +493,12 @@ def run_family(fam, scratch, prefixes, allow_incomplete=False):
             # event) produces no verdict: that is a defect of the generator/harness, never a violation
             raise MachineryError(f"trace validation ({fam.trace_module}): {len(verdicts)} verdicts for {nt} traces "
                                  "(some trace was not consumed completely)\n" + r["stdout"][-1500:])
+        # a second judgement of the same log that belongs to the property of this check while the first violation
+        # belongs to another one (printed by the trace specification as << "ALSO", id, line, invariant >>)
+        for m in ALSO_RE.finditer(r["stdout"]):
+            sid, ln, inv = int(m.group(1)), int(m.group(2)), m.group(3)
+            if sid in verdicts and not belongs(verdicts[sid][1], prefixes) and belongs(inv, prefixes):
+                verdicts[sid] = (ln, inv, "")
         lines = None
         for sid, (ln, inv, exp) in sorted(verdicts.items()):
             if inv == "ok":
